@@ -83,10 +83,18 @@ class C11(Check):
         for name, nom in self.nominal.items():
             for idx in range(nom["n"]):
                 cs.append({"name": name, "idx": idx})
+                if idx in (0, nom["n"] // 2, nom["n"] - 1):
+                    # the same with the manager's -D/--iodebug option (what is logged on the way)
+                    cs.append({"name": name, "idx": idx, "iodebug": True})
             # commands that re-open the connection themselves (the UI heartbeat leaves and re-enters
             # the signer): each of their own getDongle calls failing
             for j in range(1, nom.get("opens", 0) + 1):
                 cs.append({"name": name, "idx": 0, "inner_open": j})
+        # the device comes back locked, in the bootloader: the repair is the long bring-up (unlock,
+        # signer launched, second open); each of its exchanges failing in turn
+        for platform in ("ledger", "sgx"):
+            for v1 in (False, True):
+                cs.append({"relock": platform, "v1": v1, "name": "relock", "idx": 0})
         return cs
 
     def req_of(self, name):
@@ -97,11 +105,12 @@ class C11(Check):
         return self.reqs[name]
 
     def history(self, name, idx, fault, follow, k, second=None, inner_open=None):
+        debug = getattr(self, "debug_dongle", False)
         """returns (world, [(reply, exc)], [log slices])"""
         v1 = name.startswith("v1-")
         dev = dialogues.configure(PowHsm(seed=b"c11"), name)
         w = World(dev)
-        proto = harness.make_protocol(w, v1=v1)
+        proto = harness.make_protocol(w, v1=v1, debug=debug)
         base = len(w.log)
         armed = {"on": idx is not None, "base": None}
 
@@ -147,11 +156,27 @@ class C11(Check):
         return w, replies, slices
 
     def run_case(self, case, stats):
+        self.debug_dongle = bool(case.get("iodebug"))
+        try:
+            vs = self._run_case(case, stats)
+            if self.debug_dongle:
+                for v in vs:
+                    if isinstance(v.d.get("case"), dict):
+                        v.d["case"]["iodebug"] = True
+                        v.d["key"] = v.d["key"] + ":iodebug"
+            return vs
+        finally:
+            self.debug_dongle = False
+
+    def _run_case(self, case, stats):
         vs = []
         name, idx = case["name"], case["idx"]
         v1 = name.startswith("v1-")
         if case.get("fault") == "none":
             return [v for v in self.pre_violations if v.d["case"]["name"] == name]
+        if case.get("relock"):
+            self.relock(case, stats, vs)
+            return vs
         if case.get("inner_open"):
             follows = self.follow1 if v1 else self.follow5
             for f in follows:
@@ -178,6 +203,91 @@ class C11(Check):
                     for kind2 in ("timeout", "write", "read"):
                         self.second(name, idx, fault, follows[0], j, kind2, stats, vs)
         return vs
+
+    def relock(self, case, stats, vs):
+        """link failure, the device comes back LOCKED (bootloader): the repairing request unlocks it,
+        launches the signer and opens the connection again; exchange j of that long bring-up fails
+        (time-out / write / read).  That request gets the device-error code, the manager keeps
+        running, and the next request starts with getDongle() and the bring-up checks again, before
+        its own APDU."""
+        from .c10 import PinDevice
+        platform, v1 = case["relock"], case["v1"]
+        derr = -2 if v1 else -905
+        req = {"command": "getPubKey", "version": 1 if v1 else 5, "keyId": "m/44'/137'/0'/0/0"}
+        line = json.dumps(req).encode()
+
+        def scenario(j, kind2):
+            dev = PinDevice(platform, b"1234567a")
+            dev.mode, dev.unlocked = 3, True
+            w = World(dev)
+            proto = harness.make_protocol(w, v1=v1, platform=platform)
+            base = w.seq
+            w.inject = lambda world, i, apdu: ("read",) if i == base else None
+            out = [harness.handle_line(proto, line)]
+            dev.power_cycle()
+            if j is None:
+                w.inject = None
+            else:
+                b2 = w.seq
+                w.inject = lambda world, i, apdu: (kind2,) if i - b2 == j else None
+            marks = [len(w.log)]
+            out.append(harness.handle_line(proto, line))
+            w.inject = None
+            marks.append(len(w.log))
+            out.append(harness.handle_line(proto, line))
+            marks.append(len(w.log))
+            out.append(harness.handle_line(proto, line))
+            return dev, w, out, marks
+        # length of the fault-free repair
+        dev, w, out, marks = scenario(None, None)
+        n = sum(1 for e in w.log[marks[0]:marks[1]] if e[0] == "x")
+        codes0 = [o.reply.get("errorcode") if isinstance(o.reply, dict) else None for o in out]
+        if codes0[0] != derr or codes0[1] not in (0, 1) or any(o.exc for o in out):
+            vs.append(Violation("C11", "C11:relock-repair-fails:%s" % platform, dict(case), None,
+                                {"codes": codes0, "exc": [o.exc for o in out]},
+                                {"codes": [derr, 0, 0, 0]}, "relock"))
+            return
+        for j in range(n - 1):          # the last exchange is the request's own command
+            for kind2 in ("timeout", "write", "read"):
+                stats.evaluations += 1
+                dev, w, out, marks = scenario(j, kind2)
+                codes = [o.reply.get("errorcode") if isinstance(o.reply, dict) else None for o in out]
+                stats.observe(("relock", platform, v1, j, kind2, tuple(codes), tuple(o.exc for o in out)),
+                              nontrivial=True)
+                c = dict(case, j=j, kind2=kind2)
+
+                def viol(clause, observed, expected):
+                    vs.append(Violation("C11", "C11:%s:relock-%s:%s@%d" % (clause, platform, kind2, j), c, None,
+                                        observed, expected, clause))
+                if "RequestHandlerShutdown" in (out[1].exc, out[2].exc):
+                    # the bring-up decided to stop the manager (a failed step of the bootloader
+                    # phase ends in an interrupt by design: C09's matter)
+                    stats.dont_care += 1
+                    continue
+                if out[1].exc is not None or out[2].exc is not None:
+                    viol("failed-repair-stops-manager", {"exc": [out[1].exc, out[2].exc], "raw": out[1].raw},
+                         {"errorcode": derr})
+                    continue
+                if codes[1] in (0, 1):
+                    continue      # the fault hit an exchange whose failure the bring-up tolerates
+                if codes[1] != derr:
+                    viol("failed-repair-code", {"reply": out[1].reply}, {"errorcode": derr})
+                    continue
+                ent = [(e[0], e[2][1] if e[0] == "x" else None) for e in w.log[marks[1]:marks[2]]]
+                xs = [i for i, e in enumerate(ent) if e[0] == "x"]
+                opens = [i for i, e in enumerate(ent) if e[0] in ("open", "open-fail")]
+                if kind2 == "timeout" and False:
+                    continue
+                if not xs:
+                    continue
+                if not opens or opens[0] > xs[0]:
+                    viol("repair-not-retried", {"log": ent[:8], "reply": out[2].reply},
+                         "getDongle() and the bring-up checks before any APDU of the request")
+                    continue
+                first = [e[1] for e in ent[opens[0] + 1:opens[0] + 3]]
+                if first != BRINGUP[:2]:
+                    viol("repair-retry-incomplete", {"apdus_after_open": first, "log": ent[:8]},
+                         {"apdus_after_open": BRINGUP[:2]})
 
     def inner(self, name, j, f, stats, vs):
         """the j-th getDongle call the command makes itself fails: device-error code, the manager
